@@ -52,7 +52,7 @@ def assign_event(c, unit, accumulate):
         ys = [0.3 + 0.8 * (i // 6) for i in range(len(zs))]
         atoms = Atoms("C" * len(zs), positions=list(zip(xs, ys, zs)), cell=(LATERAL, LATERAL, float(np.sum(th))), pbc=True)
         pot = abtem.Potential(atoms, gpts=8, slice_thickness=tuple(th), projection="infinite")
-        ev["reported_ok"] = len(pot.slice_thickness) == len(th) and abs(sum(pot.slice_thickness) - atoms.cell[2, 2]) < 1e-9
+        ev["reported_ok"] = bool(len(pot.slice_thickness) == len(th) and abs(sum(pot.slice_thickness) - atoms.cell[2, 2]) < 1e-9)
         sl = pot.get_sliced_atoms()
         for k in range(len(th)):
             a = sl.get_atoms_in_slices(k)
@@ -89,6 +89,35 @@ def additive_event(rng, projection):
     return ev
 
 
+def column_event(rng, split):
+    """atomic columns: several atoms of one element above each other (same or adjacent pixel), so that thick slices hold more than
+    one of them; split=True checks additivity over a split of the column, split=False independence of the slicing"""
+    import abtem
+    from ase import Atoms
+    ev = {"k": "additive" if split else "reslice", "column": True, "raised": False, "err_ppb": 0, "projection": "infinite"}
+    try:
+        H = 6.0
+        x, y = rng.uniform(1, 4), rng.uniform(1, 4)
+        zs = [0.4, 1.1, 2.3, 2.9, 4.2, 5.5]
+        pos = [(x + 0.01 * i, y - 0.02 * i, z) for i, z in enumerate(zs)] + [(x + 2.0, y, 1.0), (x + 2.0, y, 1.2)]
+        syms = ["Si"] * len(zs) + ["C", "C"]
+        cell = (6.0, 6.0, H)
+        if split:
+            mk = lambda idx: np.asarray(abtem.Potential(Atoms([syms[i] for i in idx], positions=[pos[i] for i in idx], cell=cell, pbc=True), gpts=24,
+                                                        slice_thickness=3.0, projection="infinite").build(lazy=False).array)
+            idx = list(range(len(pos)))
+            a, b = idx[0::2], idx[1::2]
+            ev["err_ppb"] = ppb(relerr(mk(a) + mk(b), mk(idx)))
+        else:
+            atoms = Atoms(syms, positions=pos, cell=cell, pbc=True)
+            pr = lambda th: np.asarray(abtem.Potential(atoms, gpts=24, slice_thickness=th, projection="infinite").project().array)
+            ev["err_ppb"] = ppb(max(relerr(pr(6.0), pr(0.5)), relerr(pr((2.0, 4.0)), pr(0.5))))
+    except Exception as ex:
+        ev["raised"] = True
+        ev["exc"] = f"{type(ex).__name__}: {ex}"[:300]
+    return ev
+
+
 def reslice_event(c1, c2, rng):
     """same atoms, two slicings of the same height: projected potential must agree (infinite projection)"""
     import abtem
@@ -117,7 +146,7 @@ def judge(ctx: Ctx, evs):
     for e, (ok, bad) in zip(evs, res):
         if not ok:
             tg = tags_for(e, bad[0][1])
-            ctx.report(tg, {"event": e}, f"{e['k']}: {','.join(tg['clauses'])}: {json.dumps({k: v for k, v in e.items() if k not in ('case',)})[:300]}")
+            ctx.report(tg, {"event": e}, f"{e['k']}: {','.join(tg['clauses'])}: {json.dumps({k: v for k, v in e.items() if k not in ('case',)}, default=str)[:300]}")
 
 
 def self_test(ctx: Ctx):
@@ -137,7 +166,8 @@ def run(ctx: Ctx):
     quick = ctx.tier == "quick"
     ctx.rule = ("slicings = all compositions of the cell height (half-unit thicknesses) for heights <= H, enumerated by TLC; one atom "
                 "at every quarter-lattice height (boundaries, just above, just below in lattice terms), for length units 1.0, 0.5, 0.3 "
-                "and 0.1, thicknesses/heights formed by multiplication and by repeated addition; additivity over random splits "
+                "and 0.1, thicknesses/heights formed by multiplication and by repeated addition, plus long uniform slicings (20-40 slices of "
+                "0.1 / 0.3 / 0.9); additivity over random splits and over splits of an atomic column (several atoms per slice and pixel) "
                 "(infinite and finite projection); re-slicing pairs; non-trivial = more than one slice")
     r = ctx.design_check("SlicingImpl", cfg_text=CFG.format(h=4 if quick else 6), label="SlicingImpl=>Slicing", workers=1, timeout=3000)
     self_test(ctx)
@@ -150,9 +180,20 @@ def run(ctx: Ctx):
             for acc in (False, True):
                 evs.append(assign_event(c, unit, acc))
                 ctx.case(("assign", json.dumps(c), unit, acc), nontrivial=len(c["th"]) > 1)
+    # long uniform slicings (not from the bounded enumeration): cumulative-sum drift needs many slices of a non-dyadic thickness
+    for th in ([1] * 40, [2] * 20, [1, 3] * 10):
+        for unit in (0.4, 1.2, 3.6):
+            for acc in (False, True):
+                c = {"height": 40, "th": th}
+                evs.append(assign_event(c, unit, acc))
+                ctx.case(("assign-long", json.dumps(c), unit, acc))
     for j in range(10 if quick else 200):
         evs.append(additive_event(rng, "infinite" if j % 3 else "finite"))
         ctx.case(("additive", j))
+    for j in range(3 if quick else 30):
+        evs.append(column_event(rng, True))
+        evs.append(column_event(rng, False))
+        ctx.case(("column", j))
     by_h = {}
     for c in cases:
         by_h.setdefault(c["height"], []).append(c)
